@@ -1,9 +1,10 @@
 SPECIFICATION Spec
 CONSTANTS
   AddrNegCountPanic = TRUE
+  OfflineSigSkipped = TRUE
   Level = 2
 VIEW view
-PROPERTIES HeaderChecksOK RoundTripOK IdempotentOK ReproOK
+PROPERTIES HeaderChecksOK RoundTripOK IdempotentOK ReproOK DeviationOK
 CONSTRAINT InitOut
 ACTION_CONSTRAINT Edge
 CHECK_DEADLOCK FALSE
